@@ -240,6 +240,9 @@ def replay(case):
 A_KINDS = {
     "stop": ("stop", {"name": "w0", "match": "simple"}),
     "stop-all": ("stop", {}),
+    "stop-glob": ("stop", {"name": "w*"}),
+    "start-glob": ("start", {"name": "w[01]"}),
+    "stop-regex": ("stop", {"name": "w[0-9]+", "match": "regex"}),
     "start": ("start", {"name": "w1", "match": "simple"}),
     "restart": ("restart", {"name": "w0", "match": "simple"}),
     "restart-all": ("restart", {"name": "w*"}),
@@ -279,6 +282,8 @@ CONFIG_EDITS = {
 B_KINDS = {
     "stop": ("stop", {"name": "w0", "match": "simple"}),
     "start": ("start", {"name": "w1", "match": "simple"}),
+    "stop-glob": ("stop", {"name": "w*"}),
+    "restart-glob": ("restart", {"name": "w[12]"}),
     "restart": ("restart", {"name": "w2", "match": "simple"}),
     "reload": ("reload", {"name": "w2"}),
     "incr": ("incr", {"name": "w2", "nb": 1}),
